@@ -242,7 +242,7 @@ def build_delitem(S):
         ref, f = AM.make_atoms(I2, 'self')
         old = dict(f)
         L = z3.Int('L')
-        I2.assume(L >= 1)
+        I2.assume(L >= 0)
         idx = AM.seq('indices', L, [INT], kind='list')
         idx.distinct = True
         N = f['positions'].length
